@@ -31,7 +31,7 @@ ASSUMPTIONS = [
     "the '__NAN__' row of a quantitative feature under dropna=False is not judged (the statement speaks of merged missing values)",
     "base modalities are those of an identically configured Discretizer",
 ]
-BUDGET = {"quick": 600, "thorough": 25000}
+BUDGET = {"quick": 900, "thorough": 25000}
 DEADLINE_S = {"quick": 220, "thorough": 3300}
 CLASSES = ("BinaryCarver", "ContinuousCarver", "BinaryCarver", "ContinuousCarver", "MulticlassCarver", "Discretizer", "QuantitativeDiscretizer", "QualitativeDiscretizer")
 STR_NAN, STR_DEFAULT = "__NAN__", "__OTHER__"
